@@ -57,11 +57,28 @@ def _sets_attr(ctx, fn: Func, n, attr: str) -> bool:
     return False
 
 
+def _reflect_fn_names(ctx, fn) -> Set[str]:
+    """locals of the runner bound to the reflect backend entry (directly or via getattr(module, "reflect", ...))"""
+    out = {"reflect"}
+    for _ in range(3):
+        for d in ctx.rd(fn).all_defs:
+            if d.kind in ("assign", "import") and (d.value is None or any((isinstance(y, ast.Name) and y.id in out) or const_str(y) == "reflect" for y in ast.walk(d.value))):
+                if d.kind == "import" and d.name != "reflect":
+                    continue
+                out.add(d.name)
+    return out
+
+
+def _names_reading(rd, key: str) -> Set[str]:
+    return {d.name for d in rd.all_defs if d.kind == "assign" and d.value is not None and any(const_str(z) == key for z in ast.walk(d.value))}
+
+
 def rule_gate(ctx) -> None:
     fn = ctx.func(RUNNER)
     cfg = ctx.cfg(fn)
     rd = ctx.rd(fn)
-    calls = [(n, c) for n in cfg.nodes for c in node_calls(n) if isinstance(c.func, ast.Name) and c.func.id == "reflect_fn"]
+    rf_names = _reflect_fn_names(ctx, fn)
+    calls = [(n, c) for n in cfg.nodes for c in node_calls(n) if isinstance(c.func, ast.Name) and c.func.id in rf_names]
     ctx.floor("C19.GATE", "reflect_fn call sites", len(calls), 1)
     for n, c in calls:
         facts = cfg.facts(n)
@@ -139,29 +156,42 @@ def rule_cap(ctx) -> None:
     w = ctx.func(WRITER + ":write_reflection_entries")
     cfg = ctx.cfg(w)
     rd = ctx.rd(w)
-    adds = [(n, c) for n in cfg.nodes for c in node_calls(n) if call_tail(c) == "add" and src(c.func.value) == "index"]
+    idx_names = _names_reading(rd, "mem_index") | {d.name for d in rd.all_defs if d.value is not None and ("mem_index" in src(d.value) or (isinstance(d.value, ast.Call) and call_tail(d.value) == "_choose_index"))}
+    caps = _names_reading(rd, "ops_reflection")
+    ent_names = {d.name for d in rd.all_defs if d.kind == "assign" and d.value is not None and any(isinstance(y, ast.Attribute) and y.attr == "memory_entries" for y in ast.walk(d.value))}
+    adds = [(n, c) for n in sorted(cfg.nodes, key=lambda x: x.id) for c in node_calls(n) if call_tail(c) == "add" and isinstance(c.func.value, ast.Name) and (c.func.value.id in idx_names or c.func.value.id == "index")]
     ctx.floor("C19.CAP", "index.add sites", len(adds), 1)
-    for n, c in adds:
+    for i_a, (n, c) in enumerate(adds, 1):
         facts = cfg.facts(n)
-        ok = ("ops_cap <= 0", False) in facts or ("ops_cap > 0", True) in facts
-        ctx.check(ok, "C19.CAP", f"{w.qual}/add-after-cap-check@{n.lineno}", w.loc(c), "index.add is reachable only where ops_cap > 0",
+        ok = any((f"{oc} <= 0", False) in facts or (f"{oc} > 0", True) in facts for oc in caps)
+        ctx.check(ok, "C19.CAP", f"{w.qual}/add-after-cap-check#{i_a}", w.loc(c), "index.add is reachable only where ops_cap > 0",
                   "index.add is reachable with ops_cap <= 0")
         loops = [st for st, part in enclosing(ctx.prog, w, c) if isinstance(st, ast.For) and part == "body"]
-        okl = bool(loops) and any(isinstance(x, ast.Name) and x.id == "entries" for x in ast.walk(loops[-1].iter))
-        ctx.check(okl, "C19.CAP", f"{w.qual}/add-iterates-truncated@{n.lineno}", w.loc(c), "the write loop iterates the truncated `entries`", "the write loop does not iterate the truncated entry list")
+        okl = bool(loops) and any(isinstance(x, ast.Name) and x.id in ent_names for x in ast.walk(loops[-1].iter))
+        ctx.check(okl, "C19.CAP", f"{w.qual}/add-iterates-truncated#{i_a}", w.loc(c), "the write loop iterates the truncated `entries`", "the write loop does not iterate the truncated entry list")
     # truncation
-    truncs = [d for d in rd.all_defs if d.name == "entries" and d.value is not None and isinstance(d.value, ast.Subscript) and isinstance(d.value.slice, ast.Slice)
-              and d.value.slice.upper is not None and src(d.value.slice.upper) == "ops_cap" and d.value.slice.lower is None]
+    truncs = [d for d in rd.all_defs if d.name in ent_names and d.value is not None and isinstance(d.value, ast.Subscript) and isinstance(d.value.slice, ast.Slice)
+              and d.value.slice.upper is not None and src(d.value.slice.upper) in caps and d.value.slice.lower is None]
     ctx.check(bool(truncs), "C19.CAP", f"{w.qual}/truncate-to-cap", w.loc(), "entries = entries[:ops_cap]", "the entry list is not truncated to ops_cap before writing")
     # every path from entry to a write loop passes the truncation or the `len(entries) > ops_cap` false branch
-    capdef = [d for d in rd.all_defs if d.name == "ops_cap" and d.value is not None]
+    capdef = [d for d in rd.all_defs if d.name in caps and d.value is not None]
     ctx.check(bool(capdef) and all("ops_reflection" in src(d.value) for d in capdef), "C19.CAP", f"{w.qual}/cap-source", w.loc(),
               "ops_cap is read from scheduler.budgets.ops_reflection", "ops_cap is not the configured ops_reflection budget")
     for q in (REFLECT + ":_reflect_rulebased", REFLECT + ":_reflect_llm"):
         f = ctx.func(q)
         frd = ctx.rd(f)
-        ds = [d for d in frd.all_defs if d.name == "entries" and d.value is not None]
-        ok = bool(ds) and all(isinstance(d.value, ast.IfExp) and src(d.value.test).replace(" ", "") == "ops_cap>0" and isinstance(d.value.body, ast.List) and len(d.value.body.elts) == 1
+        ents = {src(kwarg(c, "memory_entries")) for c in walk_no_defs(f.node) if isinstance(c, ast.Call) and call_tail(c) == "ReflectionResult" and isinstance(kwarg(c, "memory_entries"), ast.Name)}
+        # the cap parameter: the position at which reflect() passes its ops_reflection budget
+        fcaps = _names_reading(frd, "ops_reflection")
+        disp = ctx.func(REFLECT + ":reflect")
+        dcaps = _names_reading(ctx.rd(disp), "ops_reflection")
+        for c in walk_no_defs(disp.node):
+            if isinstance(c, ast.Call) and call_tail(c) == f.name:
+                for i, a in enumerate(c.args):
+                    if isinstance(a, ast.Name) and a.id in dcaps and i < len(f.params):
+                        fcaps.add(f.params[i])
+        ds = [d for d in frd.all_defs if d.name in ents and d.value is not None]
+        ok = bool(ds) and all(isinstance(d.value, ast.IfExp) and any(src(d.value.test).replace(" ", "") == f"{oc}>0" for oc in fcaps) and isinstance(d.value.body, ast.List) and len(d.value.body.elts) == 1
                               and isinstance(d.value.orelse, ast.List) and not d.value.orelse.elts for d in ds)
         ctx.check(ok, "C19.CAP", f"{f.qual}/at-most-one-entry", f.loc(), "entries = [entry] if ops_cap > 0 else []", "the backend can emit more than one entry or ignores ops_cap == 0")
 
@@ -171,7 +201,8 @@ def rule_tok(ctx) -> None:
         f = ctx.func(q)
         cfg = ctx.cfg(f)
         rd = ctx.rd(f)
-        ds = [d for d in rd.all_defs if d.name == "summary" and d.value is not None]
+        sums = {src(kwarg(c, "summary")) for c in walk_no_defs(f.node) if isinstance(c, ast.Call) and call_tail(c) == "ReflectionResult" and isinstance(kwarg(c, "summary"), ast.Name)}
+        ds = [d for d in rd.all_defs if d.name in sums and d.value is not None]
         ok = bool(ds)
         why = "no summary definition"
         for d in ds:
@@ -241,7 +272,7 @@ def rule_tok(ctx) -> None:
         ctx.check(ok, "C19.TOK", f"{f.qual}/summary-normalised-then-truncated", f.loc(ds[0].value) if ds else f.loc(),
                   "summary = _truncate_tokens(_normalize(.)-ed text, summary_tokens)", why)
         ent = [x for x in walk_no_defs(f.node) if isinstance(x, ast.Dict) and any(const_str(k) == "text" for k in x.keys if k is not None)]
-        oke = bool(ent) and all(src(v) == "summary" for e in ent for k, v in zip(e.keys, e.values) if k is not None and const_str(k) == "text")
+        oke = bool(ent) and all(src(v) in sums for e in ent for k, v in zip(e.keys, e.values) if k is not None and const_str(k) == "text")
         ctx.check(oke, "C19.TOK", f"{f.qual}/entry-text-is-summary", f.loc(), "the memory entry's text is the truncated summary", "the memory entry's text is not the truncated summary")
     tt = ctx.func(REFLECT + ":_truncate_tokens")
     rets = [x for x in walk_no_defs(tt.node) if isinstance(x, ast.Return)]
@@ -385,7 +416,8 @@ def rule_fail(ctx) -> None:
     cfg = ctx.cfg(fn)
     rd = ctx.rd(fn)
     # error path result
-    hnodes = [n for n in cfg.nodes if n.kind == "handler" and any(any(call_tail(c) == "reflect_fn" or (isinstance(c.func, ast.Name) and c.func.id == "reflect_fn") for c in ast.walk(s) if isinstance(c, ast.Call)) for s in n.stmt.body)]
+    rf_names = _reflect_fn_names(ctx, fn)
+    hnodes = [n for n in cfg.nodes if n.kind == "handler" and any(any(isinstance(c.func, ast.Name) and c.func.id in rf_names for c in ast.walk(s) if isinstance(c, ast.Call)) for s in n.stmt.body)]
     ctx.floor("C19.FAIL", "handler of the reflect call", len(hnodes), 1)
     for h in hnodes:
         ctors = [c for st in h.ast.body for c in ast.walk(st) if isinstance(c, ast.Call) and call_tail(c) == "ReflectionResult"]
@@ -394,7 +426,9 @@ def rule_fail(ctx) -> None:
                   "an exception from reflect() yields a result with memory_entries=[] (handler catches Exception)",
                   "the error path does not produce an empty-write result / does not catch Exception")
     # timeout path
-    tnodes = [n for n in cfg.nodes if n.kind == "cond" and "elapsed_ms >" in src(n.ast)]
+    el_names = {d.name for d in rd.all_defs if d.value is not None and "perf_counter" in src(d.value)}
+    tnodes = [n for n in cfg.nodes if n.kind == "cond" and any(isinstance(y, ast.Compare) and isinstance(y.ops[0], ast.Gt) and isinstance(y.left, ast.Name) and y.left.id in el_names for y in ast.walk(n.ast))]
+    res_names = {src(c.args[2]) for n in cfg.nodes for c in node_calls(n) if dotted(c.func) == "setattr" and len(c.args) == 3 and const_str(c.args[1]) == "_reflection_result"}
     ctx.floor("C19.FAIL", "wall-budget test", len(tnodes), 1)
     for t in tnodes:
         tb = [x for x, l in t.succ if l == "T"][0]
@@ -405,7 +439,7 @@ def rule_fail(ctx) -> None:
             if isinstance(n.ast, ast.Assign):
                 v = n.ast.value
                 if isinstance(v, ast.Call) and call_tail(v) == "ReflectionResult" and isinstance(kwarg(v, "memory_entries"), ast.List) and not kwarg(v, "memory_entries").elts \
-                        and any(isinstance(x, ast.Name) and x.id == "result" for x in n.ast.targets):
+                        and any(isinstance(x, ast.Name) and x.id in res_names for x in n.ast.targets):
                     emptied.append(n)
                 if any(isinstance(x, ast.Attribute) and x.attr == "memory_entries" for x in n.ast.targets) and isinstance(v, ast.List) and not v.elts:
                     emptied.append(n)
